@@ -147,7 +147,11 @@ def handler_reraises_always(fi, handler):
         return False
     # normal continuation = a node outside the handler's own statements reached over non-raise edges
     inside_stmts = set(id(s) for s in ast.walk(handler) if isinstance(s, ast.stmt))
-    r = cfg.reach(hn, normal_only=True)
+    raise_nodes = set()
+    for s in ast.walk(handler):
+        if isinstance(s, ast.Raise):
+            raise_nodes.update(cfg.nodes_of(s))
+    r = cfg.reach(hn, avoid=raise_nodes, normal_only=True)
     for n in r:
         nd = cfg.nodes[n]
         if n in hn:
